@@ -43,6 +43,13 @@ def plan(ctx):
                               bounds="operand string LENGTHS symbolic and unbounded (str subclass with symbolic __len__/concatenation; replay uses "
                                      "real strings and maps the result to a list)",
                               desc=f"eval({text!r}) on strings, then map(c => c): list no longer than max(10000, operands)"))
+    from smartquery.functions import FUNCTIONS
+    for fn in sorted(FUNCTIONS):
+        if fn in ('rand', 'shuffle', 'match', 'match_groups', 'match_all', 'pretty'):
+            continue          # nondeterministic / C-engine builtins: no list argument is modified by them (C13), none adds elements
+        obs.append(Obligation(f"sized_any.{fn}", "xh", "c03", "sized_any", param={"fn": fn}, timeout=T,
+                              bounds="first argument: list abstracted to its LENGTH, 9996..10001 (symbolic); then an optional index (-1..1 from either end) and 0..4 further int arguments (surplus / rarely used argument forms)",
+                              desc=f"FUNCTIONS[{fn!r}](list, ...): the list never ends above the cap, a full list never grows"))
     for key, text, lit in SMALL:
         obs.append(Obligation(f"growth.small.{key}", "xh", "c03", "growth_small", param={"text": text, "lit": lit}, timeout=T * 2,
                               bounds="host lists a, b and string s of length <= 3 (symbolic contents), k in -3..3",
